@@ -88,10 +88,11 @@ def switchOpenTime (s : Dev) (tManualRepair tManualSectioning : Rat) : Dev × Ra
   | .failed => (⟨.repair, tManualRepair⟩, tManualSectioning)
   | _ => (s, 0)
 
-/-- IntelligentSwitch.close: whether the disconnector is closed by this call. -/
+/-- IntelligentSwitch.close: whether the disconnector is closed by this call (always: a switch in service closes it
+itself, a failed one is closed by hand and sent to repair, one under repair is closed by the crew that repairs it). -/
 def switchClose (s : Dev) (tManualRepair : Rat) : Dev × Bool :=
   match s.state with
-  | .repair => (s, false)
+  | .repair => (s, true)
   | .ok => (s, true)
   | .failed => (⟨.repair, tManualRepair⟩, true)
 
